@@ -16,7 +16,8 @@ MODULES = ["FlVerif.Props.C13"]
 NAMESPACE = "C13"
 TIE_A = ["Norm.", "Hedge.", "Term.", "code:fuzzylite.engine.Engine.restart", "code:fuzzylite.variable.OutputVariable.clear",
          "code:fuzzylite.rule.RuleBlock.reload_rules", "code:fuzzylite.rule.RuleBlock.load_rules",
-         "code:fuzzylite.rule.RuleBlock.unload_rules", "code:fuzzylite.rule.Rule.load", "code:fuzzylite.rule.Rule.unload"]
+         "code:fuzzylite.rule.RuleBlock.unload_rules", "code:fuzzylite.rule.Rule.load", "code:fuzzylite.rule.Rule.unload",
+         "code:fuzzylite.engine.Engine.copy"]
 RULE = ("operation sequences (length <= 8 quick / 12 thorough) of {set inputs, process, restart, copy and switch to the copy, "
         "edit a parameter of the current engine (term height, rule weight, Linear coefficient), toggle an enabled flag - "
         "process - restore} on generated engines (General activation; Mamdani / Takagi-Sugeno with Linear terms holding an "
